@@ -37,7 +37,8 @@ _cat_cache = {}
 _CATPAT = {sc_.CATEGORY_SPACE: r"\s", sc_.CATEGORY_DIGIT: r"\d", sc_.CATEGORY_WORD: r"\w"}
 _NEGCAT = {sc_.CATEGORY_NOT_SPACE: sc_.CATEGORY_SPACE, sc_.CATEGORY_NOT_DIGIT: sc_.CATEGORY_DIGIT,
            sc_.CATEGORY_NOT_WORD: sc_.CATEGORY_WORD}
-tail_checked = []   # classes for which the "constant beyond U+2FFFF" side condition was checked
+tail_checked = []   # classes for which the "constant beyond U+2FFFF" side condition was checked and holds
+tail_inexact = []   # classes for which it fails: claim restricted to code points <= U+2FFFF
 
 
 def cat_ranges(cat):
@@ -49,8 +50,12 @@ def cat_ranges(cat):
         at_top = rx.fullmatch(chr(MAXCP)) is not None
         for cp in range(MAXCP + 1, PY_MAXCP + 1):
             if (rx.fullmatch(chr(cp)) is not None) != at_top:
-                raise Unsupported(f"class {_CATPAT[cat]} is not constant beyond U+2FFFF (U+{cp:X})")
-        tail_checked.append(_CATPAT[cat])
+                # the class is not constant beyond z3's alphabet: the translation stays exact for code points up to
+                # U+2FFFF, strings with higher code points are outside the claim for patterns using this class
+                tail_inexact.append(f"{_CATPAT[cat]} (first difference at U+{cp:X})")
+                break
+        else:
+            tail_checked.append(_CATPAT[cat])
         _cat_cache[cat] = rs
     return _cat_cache[cat]
 
